@@ -52,6 +52,7 @@ func compareChain(sh chainShape, table map[byte]refmodel.Behaviour, st *fw.Stats
 					'C': "dynamic route on a caching router measured on the second identical request", 'X': "the router served a request that aborted and then panicked (no hook) before", 'D': "debug mode on",
 					'S': "group middleware added by separate Use calls and a sibling route with its own middleware registered afterwards",
 					'V': "middleware lists handed over as caller-owned spread slices with spare capacity which the caller then reuses for a second router (first global middleware) and for two sibling routes that add more with Route.Use (variadic route middleware)",
+					'L': "the caller's writer refuses every body byte (a client that is gone); no handler writes body bytes itself",
 					'Y': "the request goes to /fwd, whose first middleware forwards it with HandleContext to the measured route (/fwd's other handlers must not run)",
 					'K': "caching router; the measured chain belongs to a route registered for HEAD only on /x/{id}, a GET route with other middleware covers the same path; history GET, HEAD, then the measured HEAD request"}[h])
 			}
@@ -243,6 +244,20 @@ func c05Gen(tier string, emit func(c05Case)) {
 			}
 		}
 	}
+	// the caller's writer refuses every body byte ('L'): the helpers that answer for an abort (AbortWithStatus with a
+	// message) still abort, and which handlers run does not depend on the client still listening
+	for n := 1; n <= 3; n++ {
+		for _, sp := range splitsOf(n - 1) {
+			vectors("pnqabctsmzu", n, func(b string) {
+				if strings.ContainsAny(b, "mtsz") {
+					push(chainShape{N: n, Split: sp, Via: viaFor(sp), Beh: b, Hooks: "L"})
+					if strings.Contains(b, "m") {
+						push(chainShape{N: n, Split: sp, Via: viaFor(sp), Beh: b, Hooks: "LP"})
+					}
+				}
+			})
+		}
+	}
 	// a sibling route with its own middleware registered after the measured one, in a group whose middleware slice has
 	// spare capacity; and a custom NotFound handler installed before the global middleware
 	// ... with three (and five) group middleware: append gives the slice spare capacity exactly then
@@ -376,7 +391,7 @@ func c05Run(c c05Case, st *fw.Stats) []fw.Viol {
 var c05Spec = fw.Spec[c05Case]{
 	ID:    "C05",
 	Level: "model_checking",
-	Rule: "complete product: all behaviour vectors over 12 handler behaviours (+ n<=4 over {Next+probe, AbortWithStatus, Abort followed by three more Next calls, AbortWithStatus followed by Flush, Next then Flush, SetStatus then Flush}, and those behaviours as the single deviation of chains of 61..63 handlers) (+ chains of global middleware around the built-in not-found responder) (+ one handler that re-dispatches with HandleContext to an aborting route, at every position of route-level chains n<=5) (+ the n<=3 product and the near-limit chains again on routers with OnError / OnPanic hooks installed and handlers that record errors) (+ the n<=3 product of chains containing an abort behind a pass-through wrapper of c.Resp, on a router that served a hijacking request / a request that aborted and then panicked before, and in debug mode) (plain, Next, Next+probe, SetStatus(201)+Next, Abort before/after/without Next, AbortThen, AbortWithStatus with/without message, write-then-Next) for chains of n<=4 (thorough 5) handlers x every split of the middleware into global/group/route; n=5 and chains near the handler limit (33,34,61,62,63) by deviation bounding (uniform default behaviour, <=d deviating positions at every position); IsAborted() sampled at every entry and around every abort/Next; " +
+	Rule: "complete product: all behaviour vectors over 12 handler behaviours (+ n<=4 over {Next+probe, AbortWithStatus, Abort followed by three more Next calls, AbortWithStatus followed by Flush, Next then Flush, SetStatus then Flush}, and those behaviours as the single deviation of chains of 61..63 handlers) (+ chains of global middleware around the built-in not-found responder) (+ one handler that re-dispatches with HandleContext to an aborting route, at every position of route-level chains n<=5) (+ the n<=3 product and the near-limit chains again on routers with OnError / OnPanic hooks installed and handlers that record errors) (+ the n<=3 product of chains containing an abort behind a pass-through wrapper of c.Resp, on a router that served a hijacking request / a request that aborted and then panicked before, and in debug mode) (+ the n<=3 product of chains containing an abort helper for a caller's writer that refuses every body byte, with and without an OnPanic hook) (plain, Next, Next+probe, SetStatus(201)+Next, Abort before/after/without Next, AbortThen, AbortWithStatus with/without message, write-then-Next) for chains of n<=4 (thorough 5) handlers x every split of the middleware into global/group/route; n=5 and chains near the handler limit (33,34,61,62,63) by deviation bounding (uniform default behaviour, <=d deviating positions at every position); IsAborted() sampled at every entry and around every abort/Next; " +
 		"each chain is run through ServeHTTP and compared event by event with a cursor-free chain interpreter; non-trivial = a chain containing an abort",
 	Assume: []string{"chains stay within the documented limit (62 middleware + main handler); global middleware is not counted by any registration check (noted in DESIGN, outside the property)"},
 	Bounds: func(tier string) map[string]any {
